@@ -363,6 +363,25 @@ spec_stream = generic_stream(
     lambda o, kv: o.get("mode") in (0, 1),
     _spec_dist)
 
+def _meta_dist(dist, o, kv):
+    dist["kind_" + str(o.get("kind"))] += 1
+    if o.get("kind") == "selection":
+        dist["sel_n_%s" % o.get("n")] += 1
+        dist["sel_pressure_%s" % ("0" if o.get("pressure") == 0 else "1" if o.get("pressure") == 1 else "mid")] += 1
+    else:
+        dist["mutate_calls"] += o.get("calls", 0)
+
+
+META_SLICE = {"C14": "rej/mutate", "C15": "rej/", "C17": "rej/selection"}
+
+meta_stream = generic_stream(
+    "META", "meta", None,
+    lambda pid, acc: acc.startswith(META_SLICE.get(pid, "rej/")),
+    ("kind", "input", "input_bits", "rng_seed", "calls", "kept", "n", "pressure", "pressure_bits", "samples", "counts"),
+    lambda o, kv: True,
+    _meta_dist)
+
+
 def build_cambrian_binary(ctx):
     tgt = os.path.join(ROOT, "harness", "target", "repo")
     p = subprocess.run(["cargo", "build", "--offline", "--bin", "cambrian", "--manifest-path", "/repo/Cargo.toml", "--target-dir", tgt],
@@ -469,7 +488,7 @@ def glob_(d, pat):
     return glob.glob(os.path.join(d, pat))
 
 
-STREAMS = {"run": run_stream, "ops": ops_stream, "spec": spec_stream, "guess": guess_stream, "cli": cli_stream}
+STREAMS = {"run": run_stream, "ops": ops_stream, "spec": spec_stream, "guess": guess_stream, "cli": cli_stream, "meta": meta_stream}
 
 CTL_FILES = ["theories/Ctl.vo", "theories/CtlProofs.vo"]
 
@@ -515,15 +534,20 @@ PROPS = {
     "C08": _run_prop("C08", [{"kind": "run", "name": "reeval", "profile": "reeval", "count": {"quick": 160, "thorough": 2000}, "salt": 8},
                              {"kind": "run", "name": "mixed", "profile": "short", "count": {"quick": 160, "thorough": 2000}, "salt": 88}]),
     "C14": _run_prop("C14", [{"kind": "run", "name": "mixed", "profile": "mixed", "count": {"quick": 240, "thorough": 4000}, "salt": 14},
-                             {"kind": "cli", "name": "files", "profile": "valid", "count": {"quick": 48, "thorough": 400}, "salt": 141}],
-                     None, ["best-seen file and CSV rows (Writer) are not modelled yet", "probabilities in [0,1] / positive finite scale of meta parameters: monitored on every report item, theorem pending (operator layer)"]),
+                             {"kind": "cli", "name": "files", "profile": "valid", "count": {"quick": 48, "thorough": 400}, "salt": 141},
+                             {"kind": "meta", "name": "meta", "profile": "mixed", "count": {"quick": 160, "thorough": 4000}, "salt": 142}],
+                     ["meta_adapt::mutate is modelled with the factor 10^exponent as an arbitrary float (MetaAdapt.v); reached through the cfg(cambrian_verif) re-export"],
+                     ["best-seen file and CSV rows (Writer) are not modelled yet",
+                      "positive finite mutation scale: proved non-negative and not NaN per step (rescale_scale_sign); positivity and finiteness hold while the scale stays within [2^-900, 2^900] (monitored on direct calls and on every report item), not proved for unbounded lineages",
+                      "that the meta parameters of a report item are those produced by next_meta_params: read off the items, the selection among population members is not modelled in the controller"]),
     "C12": _ops_prop("C12", [{"kind": "ops", "name": "mixed", "profile": "mixed", "count": {"quick": 480, "thorough": 8000}, "salt": 12}]),
     "C13": _ops_prop("C13", [{"kind": "ops", "name": "mixed", "profile": "mixed", "count": {"quick": 320, "thorough": 6000}, "salt": 13},
                              {"kind": "ops", "name": "p1", "profile": "p1", "count": {"quick": 160, "thorough": 2000}, "salt": 131},
                              {"kind": "ops", "name": "p0", "profile": "p0", "count": {"quick": 96, "thorough": 1000}, "salt": 130}]),
-    "C17": _ops_prop("C17", [{"kind": "ops", "name": "p1", "profile": "p1", "count": {"quick": 320, "thorough": 6000}, "salt": 17}],
+    "C17": _ops_prop("C17", [{"kind": "ops", "name": "p1", "profile": "p1", "count": {"quick": 320, "thorough": 6000}, "salt": 17},
+                             {"kind": "meta", "name": "selection", "profile": "mixed", "count": {"quick": 120, "thorough": 3000}, "salt": 171}],
                      tested=["benchmark battery (known-optimum problems) and 'within a few attempts' for reals/ints: statements about one pseudo-random trajectory, tested only",
-                             "rank monotonicity of selection for 0 < pressure < 1 (probabilities): not yet proved; the relation only says which ranks are possible"]),
+                             "that SelectionImpl::select_ref has the distribution Selection.sel_dist (proved monotone in the rank): 6000 samples per case against the exact rational probabilities within 3 + 7 sigma, plus the source-shape fact select_ref_is_bernoulli_walk_then_uniform"]),
     "C10": {
         "propfile": "theories/Properties/C10.v",
         "coq_targets": ["theories/Properties/C10.vo"],
@@ -581,12 +605,13 @@ PROPS = {
     "C15": {
         "propfile": "theories/Properties/C15.v",
         "coq_targets": ["theories/Properties/C15.vo"],
-        "checkers": ["RunCheck", "OpsCheck", "SpecCheck", "GuessCheck", "CliCheck"],
+        "checkers": ["RunCheck", "OpsCheck", "SpecCheck", "GuessCheck", "CliCheck", "MetaCheck"],
         "streams": [{"kind": "run", "name": "stop", "profile": "stop", "count": {"quick": 160, "thorough": 3000}, "salt": 15},
                     {"kind": "ops", "name": "mixed", "profile": "mixed", "count": {"quick": 240, "thorough": 6000}, "salt": 151},
                     {"kind": "spec", "name": "mixed", "profile": "mixed", "count": {"quick": 320, "thorough": 8000}, "salt": 152},
                     {"kind": "guess", "name": "mixed", "profile": "mixed", "count": {"quick": 320, "thorough": 8000}, "salt": 153},
-                    {"kind": "cli", "name": "verbose", "profile": "verbose", "count": {"quick": 32, "thorough": 300}, "salt": 154}],
+                    {"kind": "cli", "name": "verbose", "profile": "verbose", "count": {"quick": 32, "thorough": 300}, "salt": 154},
+                    {"kind": "meta", "name": "meta", "profile": "mixed", "count": {"quick": 96, "thorough": 3000}, "salt": 155}],
         "assumptions": [
             "partial: 'never hangs' is proved as progress of the controller model (stop_drains, guarded abort branch) under the property's assumption that every evaluation ends; that the runtime delivers completions is not provable here",
             "objective values within +-2^997 (contains +-1e300); sample sizes below 2^26",
